@@ -12,3 +12,13 @@ os.makedirs(os.path.join(HERE, "evidence"), exist_ok=True)
 os.makedirs(os.path.join(HERE, "replays"), exist_ok=True)
 print("setup ok: python %s, audiolazy from %s" % (sys.version.split()[0],
                                                  kernel.REPO_DIR))
+# informational: the fake backend + C17 oracle against real, unsimulated threads
+import subprocess
+try:
+  out = subprocess.run([sys.executable,
+                        os.path.join(HERE, "tools", "realthreads_smoke.py")],
+                       stdout=subprocess.PIPE, stderr=subprocess.STDOUT,
+                       timeout=120)
+  print(out.stdout.decode("utf-8", "replace").strip().splitlines()[-1])
+except Exception as exc:     # never fatal for the setup
+  print("real-thread smoke skipped: %r" % (exc,))
